@@ -353,6 +353,25 @@ theorem C09_lawTrans_complete (m : List (List Bool)) (n : Nat) (h : lawTrans m n
   simp only [h1, h2, Bool.true_and, Bool.not_eq_true', Bool.not_eq_false] at this
   exact this
 
+theorem C09_lawTransAll_sound (m : List (List Bool)) (n i j k : Nat) (h : (i, j, k) ∈ lawTransAll m n) :
+    matGet m i j = true ∧ matGet m j k = true ∧ matGet m i k = false := by
+  have := (List.mem_filter.1 h).2
+  simpa [transPred, and_assoc] using this
+
+theorem C09_lawSymmAll_sound (m : List (List Bool)) (n i j : Nat) (h : (i, j) ∈ lawSymmAll m n) :
+    matGet m i j ≠ matGet m j i := by
+  have := (List.mem_filter.1 h).2
+  simpa [symmPred] using this
+
+/-- The per-pair predicate P̂ (`pairAgrees`, the one the driver evaluates on grass's answers)
+    holds of the model's own observation in every variant whose `map-remove` goes by `==`. -/
+theorem C09_pairAgrees_model (sw : Sw) (hr : sw.removeEq = true) (a b : Value) :
+    pairAgrees (pairObs sw a b) = [] := by
+  unfold pairAgrees pairObs
+  cases h : veq sw a b <;>
+    simp [h, neOp, get, contains, VPairs.any, remove, keeps, hr, merge, insert, VPairs.length,
+      literal, literalFrom, indexOf]
+
 /-! ## kernel-checked witnesses: where the variants violate the property -/
 
 def one : Value := .num (.fin 1) .none
@@ -442,6 +461,36 @@ theorem C09_inRange_needed :
     let c (r : Rat) := Value.color r 0 0 1
     veq .spec (c ((254999999999999 : Rat) / 1000000000000)) (c 255) = true ∧ veq .spec (c 255) (c 256) = true ∧
     veq .spec (c ((254999999999999 : Rat) / 1000000000000)) (c 256) = false := by
+  decide +kernel
+
+/-! ## the code as it stands: what is proved, what is refuted -/
+
+/-- `Sw.now`, symmetric — PARTIAL: only for values without argument lists whose convertible
+    numbers carry the canonical unit (missing: nothing for symmetry itself — with argument lists
+    it still holds — but the scope is kept equal to that of transitivity). -/
+theorem C09_veq_symm_now_partial (a b : Value)
+    (ha : noArgList a = true) (hb : noArgList b = true) (ua : unitsCanon a = true) (ub : unitsCanon b = true)
+    (ra : inRange a = true) (rb : inRange b = true)
+    (wa : mapWf .now a = true) (wb : mapWf .now b = true) :
+    veq .now a b = veq .now b a :=
+  C09_veq_symm .now rfl a b (by simp [inScope, ha, ua]) (by simp [inScope, hb, ub]) ra rb wa wb
+
+/-- `Sw.now`, transitive — PARTIAL: same scope; outside it transitivity is false
+    (`C09_asFound_now_units_not_transitive`, `…_arglist_brackets_…`, `…_arglist_keywords_…`). -/
+theorem C09_veq_trans_now_partial (a b c : Value)
+    (ha : noArgList a = true) (hb : noArgList b = true) (hc : noArgList c = true)
+    (ua : unitsCanon a = true) (ub : unitsCanon b = true) (uc : unitsCanon c = true)
+    (ra : inRange a = true) (rb : inRange b = true) (rc : inRange c = true)
+    (h1 : veq .now a b = true) (h2 : veq .now b c = true) : veq .now a c = true :=
+  C09_veq_trans .now rfl a b c (by simp [inScope, ha, ua]) (by simp [inScope, hb, ub])
+    (by simp [inScope, hc, uc]) ra rb rc h1 h2
+
+/-- The full statement for the code as it stands is false (kernel-checked): `==` is not
+    transitive (K1) — which is why the theorems above carry `inScope`. -/
+theorem C09_full_refuted : ¬ C09_full := by
+  intro h
+  have := h.2.2.1 inchB inch1 px96 (by decide +kernel) (by decide +kernel)
+  revert this
   decide +kernel
 
 end Grass.Value
